@@ -14,16 +14,19 @@
    measured by the deadline oracle of harness/props/C15.py (22 shapes x sizes n,2n,4n x 8 operations), not proved.
 
    No theorem is stated (none would say anything) for:
-   - hierarchy queries that walk UP (subsumes, is_instance_of, is_primitive): in Schema.v the ancestor chain of every
-     type is data (ti_anc), `isa` and `is_primitive` are membership tests on that finite list, hence total by
-     construction; that the TypeSystem's recursive walks agree with these lists is C10's theorem, their cost on
-     type trees 60 levels deep is measured by the deadline oracle.  The walk DOWN (Type.descendants, what select iterates
-     over) follows the mutable _children tables and does have a theorem: C15_subtype_walk_linear below (third wave);
-   - readers and writers (apart from the list walk above), typecheck, select: in the models they are structural folds
+   - hierarchy queries that walk UP (subsumes, is_instance_of, is_primitive) AS USED BY THE GRAPH MODELS: in Schema.v the
+     ancestor chain of every type is data (ti_anc), `isa` and `is_primitive` are membership tests on that finite list,
+     hence total by construction; that the TypeSystem's recursive walks agree with these lists is C10's theorem, their
+     cost on type trees 60 levels deep is measured by the deadline oracle.  The walk DOWN (Type.descendants, what select
+     iterates over) follows the mutable _children tables and does have a theorem: C15_subtype_walk_linear below (third
+     wave); the walk UP over the mutable supertype attributes of the TS.v model, which merge_typesystems rewrites, has
+     C15_supertype_walk_ends / C15_merged_supertype_walk_ends (fourth wave);
+   - readers and writers (apart from the list walk above and the search for a free namespace prefix of the XMI writer:
+     C15_free_prefix_found, fourth wave), typecheck, select: in the models they are structural folds
      (map / fold_left / filter) over the document or over the id-sorted list returned by find_all_fs, so Coq's guard
      condition is their termination proof; there is nothing further to state. *)
 From Cassis Require Import Base Heap Schema Reach ReachProofs ReachSpec RefutedC15 ReachList ReachListProofs.
-From Cassis Require TS TSProofs Merge MergeProofs ReachTypes.
+From Cassis Require TS TSProofs Merge MergeProofs ReachTypes ReachPrefix ReachPrefixProofs.
 Open Scope Z_scope.
 
 (* the worklist: never out of fuel with |heap|+1, whatever the graph *)
@@ -230,3 +233,63 @@ Example C15_nested_arrays_example :
 Proof.
   repeat split; try (vm_compute; reflexivity); eexists; split; vm_compute; reflexivity.
 Qed.
+
+(* ---- fourth wave: the walk UP the supertype attributes (Type.subsumes: TypeSystem.subsumes, typecheck, merge_typesystems
+   itself; is_instance_of is the same walk written recursively).  merge_typesystems rewrites these attributes when it
+   re-parents a type.  On every type system satisfying the hierarchy invariant the walk returns and decides `below` ... *)
+Theorem C15_supertype_walk_ends : forall ts a b, TS.WFh ts -> In a ts -> In b ts ->
+  exists r, TS.subsumes_ty ts a b = Ok r /\ (r = true <-> TS.below ts (TS.t_name a) (TS.t_name b)).
+Proof. exact ReachTypes.supertype_walk_ends. Qed.
+Print Assumptions C15_supertype_walk_ends.
+
+(* ... in particular on every type system merge_typesystems returns: whatever versions of a tree are put together, the
+   modelled merge either refuses them or hands out a tree again *)
+Theorem C15_merged_supertype_walk_ends : forall inputs ts a b, MergeProofs.all_WFh inputs -> Merge.merge inputs = Ok ts ->
+  In a ts -> In b ts ->
+  exists r, TS.subsumes_ty ts a b = Ok r /\ (r = true <-> TS.below ts (TS.t_name a) (TS.t_name b)).
+Proof. exact ReachTypes.merged_supertype_walk_ends. Qed.
+Print Assumptions C15_merged_supertype_walk_ends.
+
+(* the invariant is needed: t.A re-parented under its own descendant t.B leaves a ring, and the walk that asks whether the
+   unrelated type t.C subsumes a type of the ring runs out of EVERY fuel *)
+Theorem C15_ring_supertype_walk_diverges :
+  forall k, TS.walks_up k ReachTypes.ring2 "t.C" "t.A" = None /\ TS.walks_up k ReachTypes.ring2 "t.C" "t.B" = None.
+Proof. exact ReachTypes.ring_supertype_walk_diverges. Qed.
+Print Assumptions C15_ring_supertype_walk_diverges.
+
+Example C15_ring_is_not_a_tree : TS.wfhb ReachTypes.ring2 = false.
+Proof. exact ReachTypes.ring_not_WFh. Qed.
+
+(* ---- fourth wave: the search for a free namespace prefix of the XMI writer (one `while` loop per package met).  For every
+   table of prefixes, every state of the counters and every raw prefix it returns within |table| + 2 rounds, with a prefix
+   that is not in the table: the raw prefix itself or the raw prefix followed by a number ... *)
+Theorem C15_free_prefix_found : forall ns d raw,
+  exists p d', ReachPrefix.free_prefix ns d raw = Ok (p, d') /\ memb p ns = false /\
+               (p = raw \/ exists j, p = String.append raw (ReachPrefix.show j)).
+Proof. exact ReachPrefixProofs.free_prefix_found. Qed.
+Print Assumptions C15_free_prefix_found.
+
+(* ... so the prefix assignments of a whole serialisation return, whatever the packages are called and in whatever order
+   their structures are written *)
+Theorem C15_prefix_assignment_terminates : forall elems, ReachPrefix.assign_all ReachPrefix.ns_init elems <> OutOfFuel.
+Proof. exact ReachPrefixProofs.assign_all_terminates. Qed.
+Print Assumptions C15_prefix_assignment_terminates.
+
+(* the loop ends because the counter it reads is the counter it increments: reading the suffix from the counter of the
+   candidate just tried proposes type0 for ever once the packages ...type, ...type0, ...type have been met *)
+Theorem C15_stuck_prefix_search_diverges :
+  forall f, ReachPrefix.search_stuck f ["type"; "type0"] [] "type" "type" = OutOfFuel.
+Proof. exact ReachPrefixProofs.stuck_search_diverges. Qed.
+Print Assumptions C15_stuck_prefix_search_diverges.
+
+(* non-vacuity: two packages ending in `type`, one called `type0` written between them, an array of uima.cas and a package
+   called `cas0`: type, type0, type1; cas0 goes to the built-in url (cas stands for it already), the package gets cas00 *)
+Example C15_prefix_assignment_example :
+  option_map ReachPrefix.ns_urls
+    (match ReachPrefix.assign_all ReachPrefix.ns_init
+             [("type", "http:///p/v1/type.ecore"); ("type0", "http:///p/type0.ecore"); ("type", "http:///p/v2/type.ecore");
+              ("cas", "http:///uima/cas.ecore"); ("cas0", "http:///q/cas0.ecore"); ("type", "http:///p/v1/type.ecore")]
+     with Ok st => Some st | _ => None end)
+  = Some [("http:///p/v1/type.ecore", "type"); ("http:///p/type0.ecore", "type0"); ("http:///p/v2/type.ecore", "type1");
+          ("http:///uima/cas.ecore", "cas0"); ("http:///q/cas0.ecore", "cas00")].
+Proof. vm_compute. reflexivity. Qed.
